@@ -163,6 +163,6 @@ def main():
     json.dump(m, open(os.path.join(here, "MANIFEST.json"), "w"), indent=1)
     print("wrote MANIFEST.json with", len(checks), "checks;", len(na), "not claimed")
 
-HOOK_COMMITS = ["dcce9ec", "ed84aac"]
+HOOK_COMMITS = ["dcce9ec", "ed84aac", "d7a09f4"]
 if __name__ == "__main__":
     main()
